@@ -28,7 +28,7 @@ def LeafOK (s : SchemaD) (nm : String) (v : J) : Prop :=
   (nm = "Float" ∧ ∃ r, v = floatJ r ∧ finiteRepr r = true ∧ FloatCanon r) ∨
   (builtinScalars.contains nm = false ∧ ∃ t, s.findType nm = some t ∧ t.kind = .scalar ∧ ((∃ b, v = .bool b) ∨ ∃ x, v = .str x)) ∨
   (builtinScalars.contains nm = false ∧ ∃ t ev, s.findType nm = some t ∧ t.kind = .enum ∧ v ≠ .null ∧
-      t.values.find? (·.value == v) = some ev ∧ (t.values.find? (·.name == ev.name)).map (·.value) = some v)
+      t.values.find? (fun e => jEq e.value v) = some ev ∧ (t.values.find? (·.name == ev.name)).map (·.value) = some v)
 
 mutual
 /-- well-typed canonical values (leaf types, lists, non-null), indexed by the fuel both functions consume -/
